@@ -155,11 +155,12 @@ def run_job(cfg, prop_fn, tier, seed=0, depth=None):
         # unwinding query of the slowest 3-task graph, three soft edges, needs a little more than 15 min)
         u = unroll(prod, K, z3.And(spec['init'](prod), z3.Not(prod.pre['oob'])), seed=seed,
                    timeout_ms=900000 if tier == 'quick' else 2700000)
-        if (tier == 'quick' or cfg.w > 1) and not spec.get('needs_unwinding'):
+        if (tier == 'quick' or cfg.w > 1 or (cfg.n >= 3 and cfg.soft)) and not spec.get('needs_unwinding'):
             # quick tier: bounded claim (every run, first K steps); K is sized from the code structure and
             # its completeness (no thread enabled at depth K) is established in the thorough tier for one worker.
             # With >= 2 workers the unwinding query itself is out of reach (measured: unknown after 900 s for
-            # 2 tasks / 2 workers), so the claim stays "every interleaving of the first K steps" there.
+            # 2 tasks / 2 workers), and for 3-task graphs WITH soft edges it needs 15-45 min under load and came back
+            # unknown four times in one thorough run of C03: the claim stays "every interleaving of the first K steps" there.
             unwinding = f'not attempted: claim limited to the first K={K} steps of every run'
             break
         # one query for: some thread still enabled at depth K (unwinding) or model sanity flag
@@ -261,7 +262,7 @@ def generic_replay(module, rp):
     raise KeyError(rp['job'])
 
 
-def standard_jobs(tier, job_fn, cyclic=False, light=False):
+def standard_jobs(tier, job_fn, cyclic=False, light=False, no_w2=False):
     """light: names of configurations to leave out of the quick tier (unsat proofs that take more than ~4 minutes)"""
     cfgs = []
     for hard, soft in graphs(2):
@@ -275,6 +276,10 @@ def standard_jobs(tier, job_fn, cyclic=False, light=False):
             # light = names of configurations left out of the quick tier of that property (measured unsat proofs > 4 min)
             cfgs = [c for c in cfgs if cfg_name(Config(*c)) not in light]
     else:
+        if no_w2:
+            # C03 / C04 start from an ARBITRARY initial environment: with two workers their queries need 30-75 min each and one
+            # came back unknown after 45 min (measured) -- two workers are outside their thorough bound (cyclic graphs excepted)
+            cfgs = [c for c in cfgs if c[3] == 1]
         for hard, soft in graphs(3):
             cfgs.append((3, hard, soft, 1))
         # 3-task graphs with 2 workers are NOT in the bound: their unsat/unwinding queries exceed 15 minutes each
